@@ -1920,8 +1920,10 @@ func (e *Exec) finish() {
 	}
 	e.probe("exit")
 	env := e.exitEnv()
-	if len(e.retInfos) > 1 && os.Getenv("GOVC_MERGED_POSTS") != "1" {
-		// Postconditions are checked return by return, each in the state of its own path: the merged exit state is an
+	if len(e.retInfos) > 1 && e.C.Flags["per_return_posts"] {
+		// Contract flag per_return_posts: postconditions are checked return by return, each in the state of its own path.
+		// (Opt-in: for most functions the merged exit state is the better query - prioritizeDirectAssignment#post:src_map
+		// is decided in a second on the merged state and not at all on its hoisting path alone.) The merged exit state is an
 		// ite over whole heap components, and a quantified clause over it makes the solvers split cases under the
 		// quantifier (obligations of functions with several returns took 30-40 s that take well under a second per path).
 		// The conjunction over the paths is equivalent to the check on the merged state. The ordinal at the end of the
